@@ -252,6 +252,22 @@ class Effects:
                 return rec(t[1], deep)
             # in-place style rewrites produced by the executor keep identity
             return set()
+        if tg == 'lc':
+            # {k: copy.copy(v) for k, v in X.items()} / [x for x in X]: the container is new, its elements are
+            # those of X unless each one is deep-copied
+            if not deep:
+                return set()
+            out = set()
+            cvs = [x for x in T.walk(t[2]) if tag(x) == 'cv']
+            if not cvs:
+                return set()
+            protected = T.subst(t[2], {c: ('fresh',) for c in T.walk(t[2])
+                                       if tag(c) == 'call' and tag(c[1]) == 'g' and c[1][1] in DEEP_COPY_FUNCS})
+            if not T.contains(protected, lambda x: tag(x) == 'cv'):
+                return set()
+            for it, _ in t[3]:
+                out |= rec(it, True)
+            return out
         if tg == 'bin':
             # list + list, array arithmetic: new object
             return set()
